@@ -4,6 +4,7 @@ package props
 
 import (
 	"fmt"
+	"runtime"
 	"strings"
 
 	lua "github.com/yuin/gopher-lua"
@@ -15,7 +16,47 @@ import (
 
 func init() { harness.Register("C02", "exploration", runC02) }
 
+// c02TailErrorCost: "tail calls are proper" - a loop of tail calls runs in constant space, and so
+// does its failure: an error raised after n tail calls must not cost memory in proportion to n
+// (the traceback once built a line for every lost frame: 90 MiB per million). Measured as bytes
+// allocated by the failing loop minus bytes allocated by the same loop returning normally, for
+// n = 10^6, before any parallel work of the check starts (TotalAlloc is process-wide); allocation
+// counts are a function of the code path, not of the clock.
+func c02TailErrorCost(r *harness.Run) {
+	measure := func(fail bool) (uint64, error) {
+		L := lua.NewState()
+		defer L.Close()
+		src := `local function loop(n, fail) if n == 0 then if fail then error("x") end return "done" end return loop(n - 1, fail) end return pcall(loop, 1000000, ...)`
+		fn, err := L.LoadString(src)
+		if err != nil {
+			return 0, err
+		}
+		var a, b runtime.MemStats
+		runtime.ReadMemStats(&a)
+		L.Push(fn)
+		L.Push(lua.LBool(fail))
+		err = L.PCall(1, 2, nil)
+		runtime.ReadMemStats(&b)
+		if err == nil && (L.Get(-2) == lua.LTrue) == fail {
+			err = fmt.Errorf("pcall returned %v, %v", L.Get(-2), L.Get(-1))
+		}
+		return b.TotalAlloc - a.TotalAlloc, err
+	}
+	ok, err1 := measure(false)
+	bad, err2 := measure(true)
+	r.Eval("tail-error-cost", true, func() interface{} {
+		return map[string]interface{}{"case": "error after 10^6 tail calls", "bytes_allocated_returning": ok, "bytes_allocated_failing": bad}
+	})
+	switch {
+	case err1 != nil || err2 != nil:
+		r.Violation("F-tail/error-after-tail-calls/wrong-result", fmt.Sprintf("a loop of 10^6 tail calls: returning: %v, failing: %v", err1, err2), nil)
+	case bad > ok+(16<<20):
+		r.Violation("F-tail/error-after-tail-calls/cost-grows-with-the-number-of-tail-calls", fmt.Sprintf("an error after 10^6 tail calls allocates %d MiB more than the same loop returning normally (%d MiB): the failure of a proper tail loop is not constant-space", (bad-ok)>>20, ok>>20), map[string]interface{}{"bytes_returning": ok, "bytes_failing": bad})
+	}
+}
+
 func runC02(r *harness.Run) {
+	c02TailErrorCost(r)
 	var depthLog [][2]int
 	_ = depthLog
 	pr := &progRunner{r: r, prop: "C02", opts: lua.Options{}}
